@@ -3,7 +3,7 @@
 # Re-confirms a seeded change produced by a sub-agent in its scratch worktree:
 #   demo passes on the clean tree, patch applies, test suite passes with it, demo fails with it.
 # On success copies patch/demo/meta to /verif/seeded/<id>-<k>/ with a confirmation record.
-wt="$1"; k="$2"; id="$3"
+wt="$1"; k="$2"; id="$3"; nk="${4:-$2}"   # nk: index under /verif/seeded (defaults to k)
 export CARGO_NET_OFFLINE=true
 cd "$wt" || exit 2
 git checkout -q -- src
@@ -15,7 +15,7 @@ cargo run -q --offline --example demo_break >/dev/null 2>OUT/confirm${k}_patched
 git checkout -q -- src
 echo "$id-$k: demo_clean_exit=$clean tests_with_patch_exit=$tests demo_patched_exit=$patched"
 if [ "$clean" = 0 ] && [ "$tests" = 0 ] && [ "$patched" != 0 ]; then
-  d="/verif/seeded/$id-$k"; mkdir -p "$d"
+  d="/verif/seeded/$id-$nk"; mkdir -p "$d"
   cp "OUT/patch$k.diff" "$d/patch.diff"; cp "OUT/demo$k.rs" "$d/demo.rs"; cp "OUT/meta$k.json" "$d/agent_meta.json"
   printf '{"confirmed_by":"tools/confirm_seed.sh","demo_clean_exit":%s,"tests_with_patch_exit":%s,"demo_patched_exit":%s}\n' "$clean" "$tests" "$patched" > "$d/confirm.json"
   echo "$id-$k: confirmed"
